@@ -1,3 +1,53 @@
 import PysphVerif.Driver.Common
-/-! Line-protocol driver for C15 (stub: not built yet). -/
-def main : IO Unit := PysphVerif.Driver.loopPure (fun _ => "bad-op")
+import PysphVerif.Gen.Riemann
+/-!
+Line protocol for C15 (IEEE doubles as bit patterns `xHHHHHHHHHHHHHHHH`):
+
+* `names`                                   → comma separated `solverNames`
+* `S <name> rhol rhor pl pr ul ur gamma <niter:int> tol r0 r1`
+                                            → `<code> <result[0]> <result[1]>`
+* `D <method:int> rhol … r1` (as `S`)       → the same through `riemann_solve`
+* `SIGN x y`                                → `<value>`
+* `PF p dk pk ck g1 g2 g4 g5 g6 r0 r1`      → `<code> <f> <fd>` (`prefun_exact`)
+
+Everything runs the generated definitions of `Gen/Riemann.lean` at `Float`
+with `floatOps` (`Float.sqrt`, `Float.pow`, `Float.abs`).
+-/
+namespace PysphVerif.Driver.C15
+open PysphVerif.Wire PysphVerif.Riemann PysphVerif.Gen.Riemann
+
+def showRes (r : Res Float) : String :=
+  s!"{r.code} {showFloatBits r.r0} {showFloatBits r.r1}"
+
+def floats (toks : List String) : Option (List Float) := toks.mapM parseFloatBits?
+
+def handle (line : String) : String :=
+  match tokens line with
+  | ["names"] => showList id (solverNames)
+  | ["SIGN", x, y] =>
+    (match parseFloatBits? x, parseFloatBits? y with
+     | some x, some y => showFloatBits (SIGN floatOps x y)
+     | _, _ => "bad-op")
+  | "PF" :: rest =>
+    (match floats rest with
+     | some [p, dk, pk, ck, g1, g2, g4, g5, g6, r0, r1] =>
+       showRes (prefun_exact floatOps p dk pk ck g1 g2 g4 g5 g6 r0 r1)
+     | _ => "bad-op")
+  | [op, sel, rhol, rhor, pl, pr, ul, ur, gamma, niter, tol, r0, r1] =>
+    (match floats [rhol, rhor, pl, pr, ul, ur, gamma, tol, r0, r1], parseInt? niter with
+     | some [rhol, rhor, pl, pr, ul, ur, gamma, tol, r0, r1], some niter =>
+       if op = "S" then
+         (match runSolver floatOps sel rhol rhor pl pr ul ur gamma niter tol r0 r1 with
+          | some r => showRes r
+          | none => "bad-op")
+       else if op = "D" then
+         (match parseInt? sel with
+          | some m => showRes (riemann_solve floatOps m rhol rhor pl pr ul ur gamma niter tol r0 r1)
+          | none => "bad-op")
+       else "bad-op"
+     | _, _ => "bad-op")
+  | _ => "bad-op"
+
+end PysphVerif.Driver.C15
+
+def main : IO Unit := PysphVerif.Driver.loopPure PysphVerif.Driver.C15.handle
